@@ -7,7 +7,7 @@ import json, os, re, subprocess, sys
 import vlib
 
 CAL = os.path.join(vlib.VERIF, "cost_calibration.json")
-NPAT = 31
+NPAT = 45
 
 
 def measure(ctx, kmax):
